@@ -33,6 +33,10 @@ ADDR = {"A": "a1a2a3a4a5", "A2": "b1b2b3b4b5", "As": "c1c2", "B": "d1d2d3d4d5", 
         "Ts": "e1e2e3"}
 
 
+def regs_now(chip):
+    return chip.regfile()
+
+
 def run_case(case, prefix=None):
     P = prefix or PREFIX
     res = Result()
@@ -73,6 +77,16 @@ def run_case(case, prefix=None):
                 v = {"on": True, "off": False, "p0off": 0x3E}[op[1]]
                 r.auto_ack = v
                 model.apply(["auto_ack", v])
+            elif k == "send":
+                # a transmission (nobody acknowledges): send() leaves CE high, the next role change starts from there
+                if regs_now(chip)[0] & 3 != 2:
+                    continue  # send() is for a powered-up radio in TX mode
+                sim.horizon = sim.now + 500 * MS
+                try:
+                    r.send(b"c08")
+                except SimHorizon:
+                    res.inconclusive = "send() did not return after %r (not a pipe-0 matter; see DESIGN 6.1)" % (case["ops"],)
+                    return res
             elif k == "ack":
                 r.ack = bool(op[1])  # enabling ACK payloads switches auto-ack on pipe 0 back on (documented)
                 model.apply(["ack", bool(op[1])])
@@ -175,7 +189,7 @@ def run_case(case, prefix=None):
 
 
 ALPHA = [["orx", 0, "A"], ["orx", 0, "A2"], ["orx", 0, "As"], ["orx", 1, "B"], ["crx", 0], ["crx", 1], ["otx", "A"],
-         ["otx", "T"], ["otx", "Tp"], ["aa", "on"], ["aa", "off"], ["aa", "p0off"], ["ack", True], ["listen", True], ["listen", False]]
+         ["otx", "T"], ["otx", "Tp"], ["aa", "on"], ["aa", "off"], ["aa", "p0off"], ["ack", True], ["send"], ["listen", True], ["listen", False]]
 ALPHA_LITE = [o for o in ALPHA if o[0] != "aa"]
 
 
